@@ -19,6 +19,9 @@
 //        additional events: T:<cmd>:<kind> commandStatusChanged, X cancel requested from the callback
 //   fcancel -> "cancelled"   cancel() requested on the open frontend while NO build is running
 //   close -> "late=<n>"
+//   openrec <hexdir> <hexfile> <hexdb|-> <lanes>  as open, but the frontend's FileSystem RECORDS remove() calls instead of removing
+//     (every other operation goes to the local file system): stale paths directly under "/" can be exercised (C14)
+//   removed -> "<hexpath or - for the empty path>,..." | "."     the remove() arguments recorded since the last call, in call order
 #include "common.h"
 #include "llbuild/Basic/ExecutionQueue.h"
 #include "llbuild/Basic/FileInfo.h"
@@ -346,6 +349,22 @@ std::string doProbe(const SV& t) {
 
 // ---- one frontend across several builds (C05) ------------------------------------------------------------
 
+/// Local file system whose remove() only records its argument (C14: the exact strings handed to FileSystem::remove).
+std::mutex g_recMu;
+std::vector<std::string> g_recorded;
+class RecordingFileSystem : public FileSystem {
+  std::unique_ptr<FileSystem> base;
+public:
+  RecordingFileSystem() : base(createLocalFileSystem()) {}
+  bool createDirectory(const std::string& path) override { return base->createDirectory(path); }
+  std::unique_ptr<llvm::MemoryBuffer> getFileContents(const std::string& path) override { return base->getFileContents(path); }
+  bool remove(const std::string& path) override { std::lock_guard<std::mutex> l(g_recMu); g_recorded.push_back(path); return true; }
+  FileChecksum getFileChecksum(const std::string& path) override { return base->getFileChecksum(path); }
+  FileInfo getFileInfo(const std::string& path) override { return base->getFileInfo(path); }
+  FileInfo getLinkInfo(const std::string& path) override { return base->getLinkInfo(path); }
+  bool createSymlink(const std::string& src, const std::string& target) override { return base->createSymlink(src, target); }
+};
+
 struct Session {
   llvm::SourceMgr sm;
   BuildSystemInvocation inv;
@@ -366,7 +385,8 @@ std::string doOpen(const SV& t) {
   s.del.reset(new DrvDelegate(s.sm));
   s.del->traceStatus = true;
   s.del->inBuild = false;
-  s.fe.reset(new BuildSystemFrontend(*s.del, s.inv, createLocalFileSystem()));
+  if (t[0] == "openrec") s.fe.reset(new BuildSystemFrontend(*s.del, s.inv, std::unique_ptr<FileSystem>(new RecordingFileSystem())));
+  else s.fe.reset(new BuildSystemFrontend(*s.del, s.inv, createLocalFileSystem()));
   freopen("/dev/null", "w", stderr);      // diagnostics of many builds must not fill the pipe
   return "opened";
 }
@@ -418,7 +438,14 @@ std::string doClose(const SV&) {
 }
 
 std::string handle(const SV& t) {
-  if (t[0] == "open" && t.size() == 5) return doOpen(t);
+  if ((t[0] == "open" || t[0] == "openrec") && t.size() == 5) return doOpen(t);
+  if (t[0] == "removed") {
+    std::lock_guard<std::mutex> l(g_recMu);
+    std::string r;
+    for (auto& p : g_recorded) { if (!r.empty()) r += ","; r += p.empty() ? std::string("-") : hex(p); }
+    g_recorded.clear();
+    return r.empty() ? "." : r;
+  }
   if (t[0] == "fbuild" && t.size() == 5) return doFBuild(t);
   if (t[0] == "close") return doClose(t);
   if (t[0] == "fcancel") { if (!g_session) return "ERR no session"; g_session->del->cancel(); return "cancelled"; }
